@@ -167,8 +167,13 @@ class World(object):
                 if ch["k"] != "rl":
                     self._sync(ch, path + (n,))
         elif k == "l":
-            lst = self.real(path)
-            n = len(lst)
+            try:
+                lst = self.real(path)
+                n = len(lst)
+            except Exception as e:
+                # e.g. the library is stuck in expression mode after an aborted call (reported by the idle check)
+                self.sync_errors.append("%s: len() raised %s: %s" % (R.vname(path), type(e).__name__, str(e)[:80]))
+                return
             if node["elem"][0] == "obj":
                 n = len(lst.backing_arr)       # the objects the user put in (a random size only hides a suffix of them)
             while len(node["elems"]) > n:
